@@ -214,6 +214,32 @@ def run_one(seed, preset=None, tier="quick", want_case=False):
     cfg = pick_engine_cfg(cfgt)
     sched = pick_scheduler(cfgt)
     coerced = []
+    coercer_mode = cfgt.choose(["tag", "tag", "empty", "none"])
+    # a schema-level directive that may refuse the whole request from on_schema_execution
+    deny_directive = cfgt.chance(25)
+    deny_now = deny_directive and cfgt.chance(50)
+    if deny_now and kind != "context" and not expect_nothing_ran:
+        expect_nothing_ran = "refused by a schema-level directive"
+    if deny_directive:
+        from simv.model.schema import DirUse, DirectiveDef, print_sdl
+        case.schema.schema_directives = [DirUse("deny")]
+        case.schema.directives["deny"] = DirectiveDef("deny", ["SCHEMA"])
+        case.sdl = print_sdl(case.schema)
+
+    def register_deny(name):
+        if not deny_directive:
+            return
+        from tartiflette import Directive
+        from simv.actors import UserError
+
+        class Deny:
+            async def on_schema_execution(self, da, nxt, schema, document, parsing_errors, operation_name, context, variables, initial_value):
+                rt = getattr(context, "rt", None)
+                if rt is not None and getattr(rt, "deny", False):
+                    raise UserError("denied by the schema directive")
+                return await nxt(schema, document, parsing_errors, operation_name, context, variables, initial_value)
+
+        Directive("deny", schema_name=name)(Deny())
 
     async def error_coercer(exception, error):
         import asyncio
@@ -225,17 +251,21 @@ def run_one(seed, preset=None, tier="quick", want_case=False):
         await loop.gate(("coerce", n))
         loop.ev("coerce_done", n)
         rec["done"] = True
+        if coercer_mode != "tag" and n % 2:
+            rec["ret"] = {} if coercer_mode == "empty" else None  # whatever the coercer returns is what must appear
+            return rec["ret"]
         out = dict(error) if isinstance(error, dict) else {"message": str(error)}
         out["coerced_by"] = n
+        rec["ret"] = out
         return out
 
     name = "%s_%d" % (ID, seed)
     extra = {"error_coercer": error_coercer} if use_coercer else {}
     try:
-        engine = cook_engine(case.schema, name, cfg, sdl=case.sdl, **extra)
+        engine = cook_engine(case.schema, name, cfg, sdl=case.sdl, pre=register_deny, **extra)
         out = execute_once(engine, text, op_name, variables, plan, tape.sub("sched"), sched[0], sched[1],
                            "gate" if use_coercer else sched[2], root_value=plan.root_value,
-                           context=context if kind == "context" else None)
+                           context=context if kind == "context" else None, deny=deny_now)
     finally:
         forget(name)
     viol = []
@@ -260,14 +290,14 @@ def run_one(seed, preset=None, tier="quick", want_case=False):
             elif any(not c["done"] for c in coerced):
                 viol.append(V("error_coercer_not_awaited", "an error_coercer call was started but not awaited to completion"))
             else:
-                got = [e.get("coerced_by") if isinstance(e, dict) else None for e in errs]
-                if got != list(range(len(errs))):
-                    viol.append(V("error_coercer_order", "errors carry coercer results %r, expected %r (error order)" % (got, list(range(len(errs))))))
+                got = [e.get("coerced_by") if isinstance(e, dict) and "coerced_by" in e else None for e in errs]
+                want_order = [c["ret"].get("coerced_by") if isinstance(c["ret"], dict) and "coerced_by" in c["ret"] else None for c in coerced]
+                if [g for g in got if g is not None] != [w for w in want_order if w is not None]:
+                    viol.append(V("error_coercer_order", "errors carry coercer results %r, expected %r (error order)" % (got, want_order)))
                 for e, c in zip(errs, coerced):
-                    want = dict(c["error"]) if isinstance(c["error"], dict) else {"message": str(c["error"])}
-                    want["coerced_by"] = c["n"]
-                    if e != want:
-                        viol.append(V("error_coercer_result_not_used", "errors entry %r is not the coercer's return value %r" % (e, want)))
+                    if type(e) is not type(c["ret"]) or e != c["ret"]:
+                        viol.append(V("error_coercer_result_not_used", "errors entry %r is not the coercer's return value %r" % (e, c["ret"]),
+                                      returned=type(c["ret"]).__name__))
                         break
             seen = set()
             for c in coerced:
@@ -291,7 +321,9 @@ def run_one(seed, preset=None, tier="quick", want_case=False):
                     "error_coercer_calls": len(coerced)}
     r["probes"] = {"syntax_error": int(syntactically_ok is False), "parsed_after_corruption": int(kind == "text" and bool(syntactically_ok)),
                    "nothing_may_run": int(bool(expect_nothing_ran)), "custom_error_coercer": int(use_coercer),
-                   "coercer_with_ge2_errors": int(use_coercer and len(coerced) >= 2), "response_with_errors": int(has_errors)}
+                   "coercer_with_ge2_errors": int(use_coercer and len(coerced) >= 2), "response_with_errors": int(has_errors),
+                   "coercer_returns_falsy": int(use_coercer and coercer_mode != "tag" and len(coerced) >= 2),
+                   "denied_by_schema_directive": int(bool(deny_now))}
     if viol:
         from simv.model.document import doc_to_json
         r["doc_model"] = doc_to_json(case.doc)
